@@ -254,8 +254,7 @@ Definition slots (m : clientHelloMsg) : list (bool * ext) :=
     (negb (is_nil (elems (ch_pskIdentities m))), XPsk (elems (ch_pskIdentities m)) (ch_pskBinders m)) ].  (* :345 last *)
 Definition present (m : clientHelloMsg) : list ext := map snd (filter fst (slots m)).
 
-Definition marshalMsg (m : clientHelloMsg) : res bytes :=
-  match
+Definition marshalMsg_opt (m : clientHelloMsg) : option bytes :=
     let? extBytes := cat_opt (map enc_ext (present m)) in                            (* :366 *)
     let? r := (if (length (ch_random m) =? 32)%nat then Some (ch_random m) else None) in   (* :375 addBytesWithLength *)
     let? sid := enc_u8lp (ch_sessionId m) in
@@ -263,8 +262,9 @@ Definition marshalMsg (m : clientHelloMsg) : res bytes :=
     let? comp := enc_u8lp (ch_compressionMethods m) in
     let? eb := (if is_nil extBytes then Some [] else enc_u16lp extBytes) in          (* :390 *)
     let? body := enc_u24lp (enc_u16 (ch_vers m) ++ r ++ sid ++ cs ++ comp ++ eb) in
-    Some (1 :: body)
-  with Some b => Ok b | None => Err 1 end.
+    Some (1 :: body).
+Definition marshalMsg (m : clientHelloMsg) : res bytes :=
+  match marshalMsg_opt m with Some b => Ok b | None => Err 1 end.
 
 (* clientHelloMsg.marshal (:400-408) *)
 Definition marshal (m : clientHelloMsg) : res bytes :=
